@@ -25,6 +25,29 @@ def select : List Bool → List Rat → List Rat
 
 def mean (xs : List Rat) : Rat := xs.sum / (xs.length : Rat)
 
+/-! ### array level: `average_split` on a stack of images (an image = its list of voxels) -/
+
+/-- `stack[mask]` for a stack of images -/
+def selectImgs : List Bool → List (List Rat) → List (List Rat)
+  | b :: m, x :: xs => if b then x :: selectImgs m xs else selectImgs m xs
+  | _, _ => []
+
+/-- `stack.mean(axis=0)`: voxel `v` of the result is the mean of the `v`-th voxels -/
+def meanImg (nvox : Nat) (stack : List (List Rat)) : List Rat :=
+  (List.range nvox).map fun v => mean (stack.map fun im => im.getD v 0)
+
+/-- the draws the `s`-th call of `random_splitter` consumes from the one generator created from the seed -/
+def drawsOfSet (n : Nat) (stream : List Nat) (s : Nat) : List Nat :=
+  (stream.drop (s * (Gen.splitDraws n).toNat)).take (Gen.splitDraws n).toNat
+
+/-- `average_split(n_set)`, set-major: entry `s` is the pair (mean of `stack[ind0]`, mean of `stack[ind1]`)
+of the `s`-th random split. -/
+def averageSplit (nvox : Nat) (stack : List (List Rat)) (nset : Nat) (stream : List Nat) :
+    List (List Rat × List Rat) :=
+  (List.range nset).map fun s =>
+    let d := drawsOfSet stack.length stream s
+    (meanImg nvox (selectImgs (mask0 stack.length d) stack), meanImg nvox (selectImgs (mask1 stack.length d) stack))
+
 def bits (m : List Bool) : String := String.mk (m.map fun b => if b then '1' else '0')
 
 end Model
